@@ -118,7 +118,7 @@ Lemma original_guids_vector nm l :
 Proof.
   unfold original_guids_of, t_vector, el. cbn [children].
   rewrite filter_lines_all.
-  - rewrite map_map. induction l as [|x l IH]; [reflexivity|]. cbn [map]. rewrite IH. reflexivity.
+  - rewrite map_map. induction l as [|x l IH]; [reflexivity|]. cbn [map]. rewrite IH, opt_text_string. reflexivity.
   - reflexivity.
   - intros x Hx. apply in_map_iff in Hx. destruct Hx as (s & <- & _). reflexivity.
 Qed.
